@@ -29,6 +29,9 @@ type bTreeContainers struct {
 func newBTreeContainers() *bTreeContainers {
 	return &bTreeContainers{
 		tree: treeNew(),
+		// use a definitely-invalid key (see Reset), so that a lookup of
+		// key 0 does not hit the empty lookaside cache.
+		lastKey: ^uint64(0),
 	}
 }
 
@@ -95,6 +98,7 @@ type updater struct {
 func (btc *bTreeContainers) PutContainerValues(key uint64, typ byte, n int, mapped bool) {
 	a := updater{key, int32(n), typ, mapped}
 	btc.tree.Put(key, a.update)
+	btc.invalidateLast()
 }
 
 func (btc *bTreeContainers) Remove(key uint64) {
@@ -219,6 +223,7 @@ func (btc *bTreeContainers) Repair() {
 // replace the given container.
 func (btc *bTreeContainers) Update(key uint64, fn func(*Container, bool) (*Container, bool)) {
 	btc.tree.Put(key, fn)
+	btc.invalidateLast()
 }
 
 // UpdateEvery calls fn (existing-container, existed), and expects
@@ -229,6 +234,15 @@ func (btc *bTreeContainers) UpdateEvery(fn func(uint64, *Container, bool) (*Cont
 	// currently not handling the error from this, but in practice it has
 	// to be io.EOF.
 	_ = e.Every(fn)
+	btc.invalidateLast()
+}
+
+// invalidateLast forgets the lookaside cache. It must be called whenever
+// the tree is modified without going through Put/GetOrCreate/Remove, because
+// the cached container may have been replaced or removed.
+func (btc *bTreeContainers) invalidateLast() {
+	btc.lastKey = ^uint64(0)
+	btc.lastContainer = nil
 }
 
 type btcIterator struct {
